@@ -338,6 +338,59 @@ func init() {
 		}
 		l.p("/-- `partition.Service.Shutdown` calls `Sync()` on the journals (the library's journal controller has no Shutdown) -/")
 		l.p("def partitionShutdownSyncsJournals : Bool := %s", leanBool(syncs))
+		// cindex.onWrite: (1) the branch for a source the index has no entry for (`!ok`, an if or a switch case) sets
+		// newChk = true; (2) the guard `if newChk && firstRec > 0 { makeCorrupted … }` (→ background rebuild) exists
+		unknownSetsNew, guard := false, false
+		if fd := funcDecl(cf, "cindex", "onWrite"); fd == nil {
+			problem("cindex.onWrite not found")
+		} else {
+			isNotOk := func(e ast.Expr) bool {
+				u, ok := e.(*ast.UnaryExpr)
+				return ok && u.Op == token.NOT && c07Sel(u.X) == "ok"
+			}
+			setsNew := func(body []ast.Stmt) bool {
+				found := false
+				for _, st := range body {
+					ast.Inspect(st, func(n ast.Node) bool {
+						if as, ok := n.(*ast.AssignStmt); ok && len(as.Lhs) == 1 && len(as.Rhs) == 1 && c07Sel(as.Lhs[0]) == "newChk" && c07Sel(as.Rhs[0]) == "true" {
+							found = true
+						}
+						return true
+					})
+				}
+				return found
+			}
+			ast.Inspect(fd.Body, func(n ast.Node) bool {
+				switch x := n.(type) {
+				case *ast.IfStmt:
+					if isNotOk(x.Cond) && setsNew(x.Body.List) {
+						unknownSetsNew = true
+					}
+					if be, ok := x.Cond.(*ast.BinaryExpr); ok && be.Op == token.LAND && c07Sel(be.X) == "newChk" {
+						if c, ok := be.Y.(*ast.BinaryExpr); ok && c.Op == token.GTR && c07Sel(c.X) == "firstRec" {
+							ast.Inspect(x.Body, func(m ast.Node) bool {
+								if ce, ok := m.(*ast.CallExpr); ok && strings.HasSuffix(c07Sel(ce.Fun), "makeCorrupted") {
+									guard = true
+								}
+								return true
+							})
+						}
+					}
+				case *ast.CaseClause:
+					for _, e := range x.List {
+						if isNotOk(e) && setsNew(x.Body) {
+							unknownSetsNew = true
+						}
+					}
+				}
+				return true
+			})
+		}
+		l.p("/-- `cindex.onWrite`: for a source the index has no entry for, the new entry counts as a new chunk (`newChk = true`) -/")
+		l.p("def onWriteUnknownSourceSetsNewChk : Bool := %s", leanBool(unknownSetsNew))
+		l.p("/-- `cindex.onWrite`: `if newChk && firstRec > 0 { makeCorrupted; return ErrTmIndexCorrupted }` — a chunk that is new to the")
+		l.p("index but already holds records is handed to the background rebuilder -/")
+		l.p("def onWriteNewChunkMidwayRebuilds : Bool := %s", leanBool(guard))
 		l.p("/-- `lightFill` leaves a chunk alone when its `MaxTs > 0` (hull considered known) -/")
 		l.p("def lightFillSkipsWhenMaxTsPositive : Bool := %s", leanBool(skip))
 		l.write()
